@@ -1847,6 +1847,16 @@ impl Oracle for SenderOracle {
 			} else if failed > 0 {
 				label.push('F');
 			} else {
+				// "Once no HTLC of an outbound payment remains pending the sender reports a terminal event"
+				let in_flight: usize = w.nodes[self.sender].cm.list_channels().iter().map(|c| c.pending_outbound_htlcs.iter().filter(|x| x.payment_hash == p.hash).count()).sum();
+				let on_chain = !w.nodes[self.sender].mon.get_claimable_balances(&[]).is_empty();
+				let restarted = w.obs.iter().any(|o| matches!(o, Obs::Restarted { node, .. } if *node == self.sender));
+				if in_flight == 0 && !on_chain && !restarted {
+					return Err(f(format!(
+						"no HTLC of the payment is pending in any of the sender's channels (and nothing is left to resolve on chain), yet it saw neither PaymentSent nor PaymentFailed; listed as pending: {}",
+						payment_listed_or_in_flight(w, self.sender, &p.id, &p.hash)
+					)));
+				}
 				all_terminal = false;
 				label.push('?');
 			}
